@@ -19,7 +19,8 @@
    Tags after OK: nt (some fresh binder was created), the origin of the case (hand/file/gen and the
    mutation), pre / nopre, panic, size bucket of the output; for inputs inside the precondition the
    coverage of the round-2 preservation theorems (Model/FocusGuard.v):
-     thm-static  cs_prog and the static guard sg_prog (bn=false or kr=false): C03_uniquify_focus_preserves_fragment applies
+     thm-static  cs_prog and (the static guard sg_prog (bn=false or kr=false) or the type checker tc_prog):
+                 C03_uniquify_focus_preserves_fragment / _typed applies
      thm-run     cs_prog and no kind clash on the runs compared: C03_uniquify_focus_preserves_partial applies
      thm-none    neither (nocs: an occurrence of the wrong chirality; clash: a kind clash on a run). *)
 From Coq Require Import List ZArith NArith String Ascii Bool.
@@ -94,8 +95,8 @@ Definition thm_tags (p : cprog) (args : sexp) : string :=
             | Some tuples => forallb (fun a => clash_free_prog src_fuel p a) tuples
             | None => true
             end in
-  (if cs && guard then " thm-static" else if cs && cf then " thm-run" else " thm-none")
-  ++ (if cs then "" else " nocs") ++ (if cf then "" else " clash") ++ (if tc_prog p then " typed" else " untyped").
+  (if cs && (guard || (tc_prog p && tc_entry p)) then " thm-static" else if cs && cf then " thm-run" else " thm-none")
+  ++ (if cs then "" else " nocs") ++ (if cf then "" else " clash") ++ (if tc_prog p && tc_entry p then " typed" else " untyped").
 
 Definition s_res {X} (f : X -> sexp) (r : res X) : sexp :=
   match r with Ok x => f x | Err m => L [A "PANIC"; Q m] end.
